@@ -225,9 +225,9 @@ def granularity_source():
         add('AT=' + at, ['Rule\t@P\t1990\tmax\t-\tMar\tlastSun\t%s\t1:00\tD' % at, base_rules[1]], ['1:00\t@P\tX%sT'])
     for sv in ('1:00', '0:20', '0:30', '0:07', '1:00:30', '-0:20', '2:40'):
         add('SAVE=' + sv, ['Rule\t@P\t1990\tmax\t-\tMar\tlastSun\t2:00\t%s\tD' % sv, base_rules[1]], ['1:00\t@P\tX%sT'])
-        add('RULES=' + sv, [], ['1:00\t%s\tFXT\t2010 Jun 1' % sv, '1:00\t-\tSTT'])
+        add('RULES=' + sv, [], ['1:00\t%s\tFXT\t2010' % sv, '1:00\t-\tSTT'])
     for ut in ('2:00', '2:07', '1:59:59', '0:00:01', '2:07s', '2:07u'):
-        add('UNTIL=' + ut, base_rules, ['1:00\t@P\tX%%sT\t2010 Jun 15 %s' % ut, '2:00\t-\tYYT'])
+        add('UNTIL=' + ut, base_rules, ['1:00\t@P\tX%%sT\t20105 %s' % ut, '2:00\t-\tYYT'])
     return out
 
 def dense_policies():
@@ -297,3 +297,26 @@ def link_source():
     zones = ['A/one', 'A/two', 'A/B-C', 'A/B_C', 'A/x+y', 'Etc/GMT+1', 'Etc/GMT-1', 'Noslash']
     links = {'L/one': 'A/one', 'L/two': 'A/two', 'L/dup': 'A/two', 'L/B-C': 'A/one', 'L/B_C': 'A/two'}   # what zic makes of them
     return text, zones, links
+
+def layout_source():
+    """-> [(variant, text, zone_names, links)] the same two-era zone written in the layouts zic accepts: tab / space / mixed indentation of the
+    continuation line, indented keyword lines, trailing comments, several blanks between fields, comment and blank lines inside
+    a zone, CRLF line ends. Every variant must compile to the same thing (or be refused), never to a shorter zone."""
+    rule = ['Rule\tYP\t1990\tmax\t-\tMar\tlastSun\t2:00\t1:00\tD', 'Rule\tYP\t1990\tmax\t-\tOct\tlastSun\t3:00\t0\tS']
+    ruleq = ['  Rule  YQ  1990  max  -  Mar  lastSun  2:00  1:00  D   # indented, blanks', '\tRule\tYQ\t1990\tmax\t-\tOct\tlastSun\t3:00\t0\tS']
+    variants = {
+        'tabs': ['Zone\tY/tabs\t1:00\tYP\tX%sT\t2010', '\t\t\t2:00\tYP\tY%sT'],
+        'spaces': ['Zone Y/spaces 1:00 YP X%sT 2010', '            2:00 YP Y%sT'],
+        'onetab': ['Zone\tY/onetab\t1:00\tYP\tX%sT\t2010', '\t2:00\tYP\tY%sT'],
+        'mixed': ['Zone\tY/mixed\t1:00\tYP\tX%sT\t2010', ' \t 2:00\tYP\tY%sT'],
+        'comments': ['Zone\tY/comments\t1:00\tYP\tX%sT\t2010 # first era', '# a comment line inside the zone', '', '\t\t\t2:00\tYP\tY%sT # second era'],
+        'indentedzone': ['  Zone\tY/indentedzone\t1:00\tYP\tX%sT\t2010', '\t\t\t2:00\tYP\tY%sT'],
+        'indentedrule': ['Zone\tY/indentedrule\t1:00\tYQ\tX%sT\t2010', '\t\t\t2:00\tYQ\tY%sT'],
+        'crlf': ['Zone\tY/crlf\t1:00\tYP\tX%sT\t2010\r', '\t\t\t2:00\tYP\tY%sT\r'],
+    }
+    variants['indentedlink'] = ['Zone\tY/indentedlink\t1:00\tYP\tX%sT\t2010', '\t\t\t2:00\tYP\tY%sT', '  Link\tY/indentedlink\tY/thelink']
+    out = []
+    for k, v in variants.items():
+        # one source per variant: a refusal (the transformer exits when a policy is missing) must not hide the others
+        out.append((k, '\n'.join(rule + (ruleq if k == 'indentedrule' else []) + v) + '\n', ['Y/' + k], {'Y/thelink': 'Y/indentedlink'} if k == 'indentedlink' else {}))
+    return out
